@@ -177,7 +177,46 @@ Qed.
 Definition last_good_datab (c : case) : bool := avg_scan c (c_avg0 c) 0 (o_avgs c).
 Definition last_good_data (c : case) : Prop := avg_ok c (c_avg0 c) 0 (o_avgs c).
 
-Definition holdsb (c : case) : bool := holdsb1 c && regulates_freshb c && last_good_datab c.
+(* "keeps regulating with the last good data, or stops": a control cycle whose curve evaluation FAILED (regime plans: a
+   sensor fault in a cycle of a curve with a PID leaf, which reads the sensor itself) either ends regulation (then the
+   cycle is not in o_cyc) or leaves the request where the previous good cycle had put it - never a request derived
+   from whatever the failed evaluation returned.  In the first cycle there is no good data: it must stop. *)
+Fixpoint curve_has_pid (cv : curve) : bool :=
+  match cv with
+  | CLinear => false
+  | CPid => true
+  | CFunc _ ms => existsb curve_has_pid ms
+  end.
+Definition curve_failed (c : case) (k : nat) : bool :=
+  negb (per_op c) && curve_has_pid (cb_curve (c_cb c))
+  && negb (is_none (cy_sensor (nth k (c_plan c) (mkCyc FNone FNone FNone 0 FNone FNone false)))).
+
+Fixpoint req_scan (c : case) (prev : option Z) (k : nat) (l : list (Z * Z)) : bool :=
+  match l with
+  | [] => true
+  | (r, _) :: t =>
+      (negb (curve_failed c k) || match prev with Some r0 => r =? r0 | None => false end)
+      && req_scan c (Some r) (S k) t
+  end.
+Fixpoint req_ok (c : case) (prev : option Z) (k : nat) (l : list (Z * Z)) : Prop :=
+  match l with
+  | [] => True
+  | (r, _) :: t => (curve_failed c k = true -> prev = Some r) /\ req_ok c (Some r) (S k) t
+  end.
+Lemma req_scan_spec c l : forall prev k, req_scan c prev k l = true <-> req_ok c prev k l.
+Proof.
+  induction l as [|[r p] t IH]; intros prev k; cbn [req_scan req_ok]; [tauto|].
+  rewrite andb_true_iff, IH, orb_true_iff, negb_true_iff.
+  assert (E : match prev with Some r0 => r =? r0 | None => false end = true <-> prev = Some r).
+  { destruct prev as [r0|]; [rewrite Z.eqb_eq; split; congruence|split; discriminate]. }
+  rewrite E. destruct (curve_failed c k); split; intros [A B]; split; auto.
+  - intros _. destruct A as [A|A]; [discriminate|exact A].
+  - intros H. discriminate.
+Qed.
+Definition no_made_up_requestb (c : case) : bool := req_scan c None 0 (o_cyc c).
+Definition no_made_up_request (c : case) : Prop := req_ok c None 0 (o_cyc c).
+
+Definition holdsb (c : case) : bool := holdsb1 c && regulates_freshb c && last_good_datab c && no_made_up_requestb c.
 
 Definition Holds1 (c : case) : Prop :=
   o_kind c <> 2 /\
@@ -200,11 +239,11 @@ Proof.
       intros _. split; [exact E2|]. intros H. congruence.
 Qed.
 
-Definition Holds (c : case) : Prop := (Holds1 c /\ regulates_fresh c) /\ last_good_data c.
+Definition Holds (c : case) : Prop := ((Holds1 c /\ regulates_fresh c) /\ last_good_data c) /\ no_made_up_request c.
 Lemma holdsb_spec c : holdsb c = true <-> Holds c.
 Proof.
-  unfold holdsb, Holds, last_good_datab, last_good_data.
-  rewrite !andb_true_iff, holdsb1_spec, regulates_freshb_spec, avg_scan_spec. reflexivity.
+  unfold holdsb, Holds, last_good_datab, last_good_data, no_made_up_requestb, no_made_up_request.
+  rewrite !andb_true_iff, holdsb1_spec, regulates_freshb_spec, avg_scan_spec, req_scan_spec. reflexivity.
 Qed.
 
 (* a panic on the implementation is diagnosed with the model of the code as found *)
